@@ -367,6 +367,10 @@ func (fx *fnExec) loopMods(li *loopInfo) *modSet {
 	for _, b := range bs {
 		for _, in := range b.Instrs {
 			fx.v.instrMods(fx, in, ms, true, map[*ssa.Function]bool{})
+			if g, isGo := in.(*ssa.Go); isGo {
+				// maps written by a function spawned inside the loop are unknown at the loop head
+				fx.asyncMapMods(goCallee(g), ms, map[*ssa.Function]bool{})
+			}
 			switch in.(type) {
 			case *ssa.Call, *ssa.Store, *ssa.Send, *ssa.Go, *ssa.MapUpdate, *ssa.Defer, *ssa.RunDefers, *ssa.UnOp:
 				hasEvent = true
